@@ -125,6 +125,15 @@ def cross_check(ctx, report, status, count):
     except Exception:  # Unsupported: already reported by build_and_audit (translate())  # pylint: disable=broad-except
         return
     report.translator_checks += 1
+    try:
+        from translator import pyscan_selftest
+
+        for what in pyscan_selftest.refused_problems():
+            status.problem("translator", f"pyscan self-test: a construct outside the subset is not refused — {what}")
+        for what in pyscan_selftest.python_problems():
+            status.problem("translator", f"pyscan self-test: the readings differ from CPython — {what}")
+    except Exception as exc:  # pylint: disable=broad-except
+        status.problem("translator", f"pyscan self-test crashed: {type(exc).__name__}: {exc}")
     _, cbca = ad._mods()  # pylint: disable=protected-access
     arm_dtype = cbca.cross_support(np.zeros((1, 1), dtype=np.float32), np.int16(1), np.float32(1.0)).dtype
     rng = random.Random(ctx.seed * 104729 + 577)  # its own stream
